@@ -8,6 +8,7 @@ import (
 	"math"
 	"reflect"
 	"strconv"
+	"strings"
 	"testing"
 
 	geom "github.com/twpayne/go-geom"
@@ -757,6 +758,33 @@ type DCase struct {
 
 var junkValues = []string{`null`, `1`, `"x"`, `[]`, `[[]]`, `[1]`, `[1,2]`, `[1,2,3,4,5]`, `[[1,2],[3]]`, `[[1,2],[3,4,5]]`, `[[[1,2]]]`, `[[[[[[1,2]]]]]]`, `{}`, `[null]`, `[[null]]`, `[1,"2"]`, `true`, `[1e999,2]`, `[[1,2],null]`, `{"type":"Point"}`, `[{"type":"Point","coordinates":[1,2]},null]`}
 
+// genCRS draws a legacy GeoJSON "crs" member: the named and linked forms of the
+// 2008 specification with names in the short, URN and URL notations, complete and
+// cut short, and members of the wrong JSON type.
+func genCRS(t *rapid.T) json.RawMessage {
+	q := func(s string) string { return strconv.Quote(s) }
+	name := rapid.SampledFrom([]string{"", "EPSG:", "epsg:", "EPSG", "urn:ogc:def:crs:", "urn:ogc:def:crs:EPSG", "urn:ogc:def:crs:EPSG:", "urn:ogc:def:crs:EPSG::", "urn:ogc:def:crs:EPSG:6.6:", "urn:ogc:def:crs:epsg::", "urn:ogc:def:crs:OGC:1.3:", "urn:ogc:def:crs:OGC::", "urn:ogc:def:", "urn:", "http://www.opengis.net/def/crs/EPSG/0/", ":", "::"}).Draw(t, "crsprefix") +
+		rapid.SampledFrom([]string{"4326", "4326", "", "CRS84", "0", "-1", "+4326", "99999999999999999999", "3857x", ":", "::4326", "4326:", " 4326", "4326.0", "1e3"}).Draw(t, "crscode")
+	nameVal := q(name)
+	if rapid.IntRange(0, 5).Draw(t, "crsnametype") == 0 {
+		nameVal = rapid.SampledFrom([]string{"null", "4326", "[\"EPSG:4326\"]", "{\"name\":\"EPSG:4326\"}", "true", "4326.5"}).Draw(t, "crsnameval")
+	}
+	props := rapid.SampledFrom([]string{
+		`{"name":%s}`, `{"name":%s}`, `{"name":%s}`, `{"name":%s,"name2":1}`, `{"href":%s,"type":"proj4"}`, `{"code":%s}`, `{"Name":%s}`, `{}`, `null`, `[%s]`, `%s`,
+	}).Draw(t, "crsprops")
+	if strings.Contains(props, "%s") {
+		props = strings.Replace(props, "%s", nameVal, 1)
+	}
+	typ := rapid.SampledFrom([]string{`"name"`, `"name"`, `"name"`, `"link"`, `"EPSG"`, `"Name"`, `""`, `null`, `1`}).Draw(t, "crstype")
+	switch rapid.IntRange(0, 7).Draw(t, "crsform") {
+	case 0:
+		return json.RawMessage(`{"type":` + typ + `}`)
+	case 1:
+		return json.RawMessage(`{"properties":` + props + `}`)
+	}
+	return json.RawMessage(`{"type":` + typ + `,"properties":` + props + `}`)
+}
+
 func genDCase(t *rapid.T) DCase {
 	var doc map[string]json.RawMessage
 	class := rapid.SampledFrom([]string{"geometry", "geometry", "feature", "collection"}).Draw(t, "dclass")
@@ -783,7 +811,40 @@ func genDCase(t *rapid.T) DCase {
 	keys := []string{"type", "coordinates", "geometries", "geometry", "properties", "id", "bbox", "features", "crs"}
 	for n := rapid.IntRange(1, 3).Draw(t, "nmut"); n > 0; n-- {
 		k := rapid.SampledFrom(keys).Draw(t, "key")
-		switch rapid.IntRange(0, 3).Draw(t, "mut") {
+		switch rapid.IntRange(0, 4).Draw(t, "mut") {
+		case 4:
+			// a legacy "crs" member from its own grammar, on the document or on a
+			// geometry nested in it
+			crs := genCRS(t)
+			where := rapid.SampledFrom([]string{"", "geometry", "geometries", "features"}).Draw(t, "crswhere")
+			switch v := doc[where]; {
+			case where == "" || len(v) == 0:
+				doc["crs"] = crs
+			case v[0] == '{':
+				var sub map[string]json.RawMessage
+				if json.Unmarshal(v, &sub) == nil && sub != nil {
+					sub["crs"] = crs
+					doc[where], _ = json.Marshal(sub)
+				}
+			case v[0] == '[':
+				var subs []json.RawMessage
+				if json.Unmarshal(v, &subs) == nil && len(subs) > 0 {
+					i := rapid.IntRange(0, len(subs)-1).Draw(t, "crsidx")
+					var sub map[string]json.RawMessage
+					if json.Unmarshal(subs[i], &sub) == nil && sub != nil {
+						sub["crs"] = crs
+						if g, ok := sub["geometry"]; ok && len(g) > 0 && g[0] == '{' && rapid.Bool().Draw(t, "crsdeeper") {
+							var gg map[string]json.RawMessage
+							if json.Unmarshal(g, &gg) == nil && gg != nil {
+								gg["crs"] = crs
+								sub["geometry"], _ = json.Marshal(gg)
+							}
+						}
+						subs[i], _ = json.Marshal(sub)
+						doc[where], _ = json.Marshal(subs)
+					}
+				}
+			}
 		case 0:
 			delete(doc, k)
 		case 1:
@@ -854,6 +915,12 @@ func classifyD(c DCase) ([]string, bool) {
 	cl := []string{"decode:" + c.Class}
 	if ok {
 		cl = append(cl, "decode-accepted")
+	}
+	if bytes.Contains(c.Data, []byte(`"crs":{`)) {
+		cl = append(cl, "crs-member")
+		if ok {
+			cl = append(cl, "crs-member-accepted")
+		}
 	}
 	return cl, json.Valid(c.Data)
 }
